@@ -160,17 +160,29 @@ func runC11(r *core.Run) int {
 		for g := range seeds {
 			seeds[g] = rng.Int63()
 		}
+		// Regexps compiled for this round only: their very first uses (runner pool, lazily built
+		// state) happen concurrently, released together by the barrier
+		fresh := make([]*regexp2.Regexp, len(hPatterns))
+		for i := range fresh {
+			fresh[i] = compileH(i)
+		}
+		var barrier sync.WaitGroup
+		barrier.Add(1)
 		for g := 0; g < G; g++ {
 			wg.Add(1)
 			go func(g int) {
 				defer wg.Done()
 				prng := rand.New(rand.NewSource(seeds[g]))
+				barrier.Wait()
 				private := map[int]*regexp2.Regexp{}
 				local := map[[2]int]struct{}{}
 				for k := 0; k < opsPerG; k++ {
 					oi := prng.Intn(len(hOps))
 					op := hOps[oi]
 					re := shared[op.pat]
+					if k < 12 || prng.Intn(3) == 0 {
+						re = fresh[op.pat]
+					}
 					priv := prng.Intn(5) == 0
 					if priv {
 						// a Regexp of this goroutine only: shares just the global pools and the clock
@@ -210,6 +222,7 @@ func runC11(r *core.Run) int {
 				ovMu.Unlock()
 			}(g)
 		}
+		barrier.Done()
 		wg.Wait()
 		l.Eval(done.Load())
 		fourGrams(grams)
